@@ -201,12 +201,14 @@ def run(ctx):
             before = digest(sd)
             date = "last" if qd == "last" else dt_of(qd)
             cls = module_cls(module)
-            res = observe(lambda: cls.get(source, sd, "stat", date)["stat"])
+            # the same (informational) source_path for different source data: answers must not depend on earlier queries
+            spath = rng.choice([None, "/data/site_info/source.file"])
+            res = observe(lambda: cls.get(source, sd, "stat", date, source_path=spath)["stat"])
             after = digest(sd)
             obs = ans_term(res)
-            rep = dict(kind="history_get", module=module, source=source, intervals_s_since_2000=ivs,
+            rep = dict(kind="history_get", source_path=spath, module=module, source=source, intervals_s_since_2000=ivs,
                        query=("last" if qd == "last" else date.isoformat()), observed=obs,
-                       how=f"{cls.__name__}.get({source!r}, {{'stat': <records>}}, 'stat', date)")
+                       how=f"{cls.__name__}.get({source!r}, {{'stat': <records>}}, 'stat', date, source_path={spath!r}) after the earlier queries of this run")
             if obs.startswith("OTHER:"):
                 mism.append(("other", rep))
                 continue
@@ -254,7 +256,8 @@ def run(ctx):
         date = "last" if qd == "last" else dt_of(qd)
         cls = module_cls(module)
         sd = copy.deepcopy(data)
-        res = observe(lambda: cls.get(source, sd, stations, date))
+        spath = rng.choice([None, "/data/site_info/source.file"])
+        res = observe(lambda: cls.get(source, sd, stations, date, source_path=spath))
         if isinstance(res, dict):
             obs = "(inl " + emit.lst(emit.pair(emit.s(k_), ans_term(v)) for k_, v in res.items()) + ")"
         elif res.startswith("OTHER:"):
@@ -289,7 +292,7 @@ def run(ctx):
             order = ["antenna", "eccentricity", "receiver", "site_coord"]   # SiteInfo._MODULES order w/o identifier
             fsd = copy.deepcopy(full)
             before = digest(fsd)
-            res = observe(lambda: SiteInfo.get("snx", fsd, stations, date))
+            res = observe(lambda: SiteInfo.get("snx", fsd, stations, date, source_path=spath))
             after = digest(fsd)
             if before != after:
                 mism.append(("mutated", dict(kind="site_info_get", stations=stations, before=before, after=after)))
@@ -301,7 +304,7 @@ def run(ctx):
                         okc = False
                     # the combined answer must be the very thing the module returns (property oracle)
                     for m in order:
-                        single = observe(lambda: module_cls(m).get("snx", copy.deepcopy(full), st_, date)[st_])
+                        single = observe(lambda: module_cls(m).get("snx", copy.deepcopy(full), st_, date, source_path=spath)[st_])
                         if ans_term(single) != ans_term(row[m]):
                             okc = False
                     rows.append(emit.pair(emit.s(st_), emit.lst(ans_term(row[m]) for m in order)))
@@ -340,7 +343,7 @@ def run(ctx):
         obs = []
         for qd in qs:
             date = "last" if qd == "last" else dt_of(qd)
-            obs.append(ans_term(observe(lambda: cls.get(source, sd, "stat", date)["stat"])))
+            obs.append(ans_term(observe(lambda: cls.get(source, sd, "stat", date, source_path="/data/site_info/source.file")["stat"])))
         after = digest(sd)
         rep = dict(kind="repeated_queries", module=module, source=source, intervals_s_since_2000=ivs,
                    queries=[q if q == "last" else dt_of(q).isoformat() for q in qs], observed=obs,
